@@ -46,6 +46,7 @@ theorem generated_all_ops_known_c03 : taskSemKnown = true := by decide
 
 
 
+
 -- BEGIN PINS (written by bin/mkpins; do not edit by hand)
 /-- the Go functions this property's model and obligations were written against have exactly the
 pinned skeletons (SHA-256 prefix of the atom list) -/
@@ -55,7 +56,7 @@ theorem pinned_skeletons_c03 :
      ("Scipipe.FileIP_CreateFifo", "f6360b33d779c2ee"),
      ("Scipipe.FileIP_FifoFileExists", "b822f2c3227ef952"),
      ("Scipipe.FinalizePaths", "291fc0cefa37cea9"),
-     ("Scipipe.Process_Run", "05880ea16e590fb1"),
+     ("Scipipe.Process_Run", "40f832903317f455"),
      ("Scipipe.Process_initDefaultPathFuncs", "012072977ffdc36d"),
      ("Scipipe.Task_Execute", "40fd1fec0c69deb2"),
      ("Scipipe.Task_TempDir", "6d565a2ddd3d0eb2"),
